@@ -68,7 +68,11 @@ Ordered configuration (fourth part): slice-thickness sequences for 3, 4 and 5 sl
 as list / tuple / ndarray / tensor / scalar, installed at construction, by an object-model swap and through both
 slice_thicknesses setters followed by the recomputation calls; pattern order (data and positions permuted consistently, positions
 through the public `dset.scan_positions_px` setter); probe_params key order.  Class {"relation":
-"ordered_configuration_is_used_in_order", "sequence": ..., "what": ...}.
+"ordered_configuration_is_used_in_order", "sequence": ..., "what": ...}.  Nearly-equal thicknesses (same part): sequences for 3 and 4
+slices whose members differ by a relative spread of 5e-6 ... 2 % (ascending, descending, one odd value in every position), at a
+thickness scale where one common thickness is provably (independent simulator) >= 20x outside the l2 zero-tolerance; judged like any
+other thickness sequence, plus: the propagators read through the public property equal the simulator's, gap by gap.  Class
+{"relation": "nearly_equal_thicknesses_are_used_as_given", "sequence": "nearly_equal_thicknesses", "what": ...}.
 
 Copies / alternative constructors (fifth part): clone(), from_ptychography(), save(with raw data)+from_file, save(default, no raw
 data)+from_file(path) on a FILE-BACKED data set, save(no raw data)+from_file(path, dset=fresh identically preprocessed data set),
@@ -116,7 +120,11 @@ CLAIM = (
     "to the public setters / configuration calls, alone and combined with each other and with the valid events, are refused without "
     "changing anything the forward model uses, also after derived state is rebuilt; slice-thickness sequences in every order pattern "
     "(distinct and repeated values, five container kinds, four installation routes), permuted pattern orders and probe_params key "
-    "orders are used in the order given; every way of obtaining a second object (clone, from_ptychography, three save/from_file "
+    "orders are used in the order given; slice-thickness sequences for 3 and 4 slices whose members are NEARLY but not exactly equal "
+    "(relative spread 5e-6, 1e-4, 1e-3, 0.5 %, 0.9 %, 2 %; ascending, descending, one odd value in every position; four installation "
+    "routes; thick enough that one common thickness would miss the l2 zero-tolerance >= 20x by the independent simulator) are "
+    "propagated gap by gap with their own thickness: the public propagators equal exp(-i pi lambda dz k^2) per gap and all the "
+    "oracles above hold; every way of obtaining a second object (clone, from_ptychography, three save/from_file "
     "routes incl. a file-backed data set, deepcopy) yields one that predicts the data and is isolated from the original under five "
     "kinds of change, in both directions. Exploration is the right level: the property quantifies over configurations and "
     "batch schedules, which are enumerated completely; array contents are seeded alphabet members."
@@ -138,7 +146,9 @@ RULE = (
     "Refused requests: every member alone, pairs over the core members and with the valid events (thorough: plus triples over six "
     "core members and the valid events), on 3 (quick) / 4 (thorough) base configurations incl. a single-slice one. Ordered "
     "configuration: sequences x routes x bases (quick: list container plus all containers for two sequences; thorough: full product), "
-    "6 pattern orders x {1,3} slices, 6 probe_params key orders. Copies: base configurations x 6 ways of copying x which of the "
+    "6 pattern orders x {1,3} slices, 6 probe_params key orders. Nearly-equal thicknesses: {3,4} slices x 6 spreads x every order "
+    "(quick: at construction on the first base, plus the three other routes with the odd value in the middle on the second base; "
+    "thorough: x 4 routes x 2 bases); a member whose seeded contents make it less sensitive than 40x is thickened until it is. Copies: base configurations x 6 ways of copying x which of the "
     "two objects is changed; the five changes are applied one after the other and the other object is judged after each."
 )
 
@@ -995,17 +1005,21 @@ PROBE_PARAM_KEYS = ("energy", "defocus", "semiangle_cutoff")
 # with a thickness scale [A] large enough that using one common thickness instead would be far outside the tolerances at the
 # check's energy (300 kV) and sampling: NEAR_MIN_SENSITIVITY is verified at run time with the independent simulator (data
 # simulated with the first / the last member for every gap, judged like a library prediction: the best l2 loss must exceed its
-# zero-tolerance by that factor), Broken otherwise.  The smallest spread is 5e-6: float32 rounding of the propagator phase is
+# zero-tolerance by that factor), Broken otherwise.  The scale listed is the NOMINAL one: where the seeded contents make a member less
+# sensitive than 2 x NEAR_MIN_SENSITIVITY, the scale is raised (l2 loss ~ scale^2, two significant digits) to reach
+# NEAR_TARGET_SENSITIVITY -- always so for the 5e-6 spread (50000 .. 300000 A), whose float32 rounding floor grows with the scale as
+# well: the member is placed where the wrong answer is ~30x above and the rounding floor ~10x below the l2 tolerance.
+# The smallest spread is 5e-6: float32 rounding of the propagator phase is
 # ~1.3e-7 relative, so a 1e-6 spread is only ~7x (losses: ~30x) above the rounding floor of a correct single-precision
 # implementation and cannot be told apart from it with a 20x margin on either side; 5e-6 still lies inside the default
 # relative tolerance (1e-5) of the usual approximate-equality tests.  Absolute differences range from 0.3 A to 4 A.
-NEAR_EQUAL_SPREADS = ((5e-6, 90000.0), (1e-4, 5000.0), (1e-3, 1000.0), (5e-3, 200.0), (9e-3, 200.0), (2e-2, 200.0))  # (relative spread, scale [A])
+NEAR_EQUAL_SPREADS = ((5e-6, 20000.0), (1e-4, 5000.0), (1e-3, 1000.0), (5e-3, 200.0), (9e-3, 200.0), (2e-2, 200.0))  # (relative spread, scale [A])
 NEAR_EQUAL_ORDERS = {3: ("ascending", "descending"), 4: ("ascending", "descending", "odd_first", "odd_middle", "odd_last")}
-NEAR_BASE_SCALE = (1.0, 3.0)  # the second base configuration (potential object, 8x8 ROI) is ~7x less sensitive in the l2 losses: 3x thicker slices
+NEAR_TARGET_SENSITIVITY = 32.0  # a member below 2 x NEAR_MIN_SENSITIVITY at its nominal scale is thickened to reach this (see near_equal_member)
 NEAR_MIN_SENSITIVITY = 20.0
 # propagators read through the public property vs the simulator's per-gap ones: max |difference| <= NEAR_PROP_TOL[0] * (largest
-# propagator phase [rad]) + NEAR_PROP_TOL[1].  Observed on the unchanged tree: 1.3e-7 x phase (float32 phase rounding; 620 rad
-# for the 90000 A member), i.e. 8x below the bound | one common thickness: >= 5e-6 x phase, >= 5x the bound (>= 100x from 1e-4 on)
+# propagator phase [rad]) + NEAR_PROP_TOL[1].  Observed on the unchanged tree: 1.3e-7 x phase (float32 phase rounding; hundreds of rad
+# for the 5e-6 members), i.e. 8x below the bound | one common thickness: >= 5e-6 x phase, >= 5x the bound (>= 100x from 1e-4 on)
 NEAR_PROP_TOL = (1e-6, 1e-6)
 
 
@@ -1044,6 +1058,40 @@ def pattern_permutation(name, scan):
     raise ValueError(name)
 
 
+def near_equal_member(base, S, item, seed):
+    """The thickness sequence of a nearly-equal member at a scale where it matters, with the proof: the independent simulator with ONE
+    common thickness (the first / the last member) in every gap, judged like a library prediction against the data of the sequence,
+    must miss the l2 zero-tolerance by >= NEAR_MIN_SENSITIVITY.  Returns (T, {tag: wrong data}, sensitivity, scale)."""
+    c0 = PT.normalise(dict(base))
+    geo = PT.geometry(c0)
+    J = geo.num_patterns
+    obj = PT.make_object(c0, geo, np.random.default_rng([int(seed), 2, 700 + item["base"], S, 1]))  # the object run_order_case() uses
+    probe = PT.make_probe(c0, geo)
+
+    def sensitivity(scale):
+        T = near_equal_sequence(S, item["rel"], scale, item["order"])
+        data = PT.simulate(obj, probe, geo, PT.normalise(dict(base, thicknesses=T)))
+        m = float(data.sum() / J)
+        commons, sens = {}, []
+        for tag, tc in (("first", T[0]), ("last", T[-1])):
+            commons[tag] = PT.simulate(obj, probe, geo, PT.normalise(dict(base, thicknesses=[tc] * (S - 1))))
+            sens.append(max(PT.ref_loss(commons[tag], data, lt, J, m) / PT.ref_loss(np.zeros_like(data), data, lt, J, m) / TOL["zero"][lt] for lt in ("l2_amplitude", "l2_intensity")))
+        return T, commons, min(sens)
+
+    scale = float(item["scale"])
+    T, commons, sens = sensitivity(scale)
+    if sens < 2 * NEAR_MIN_SENSITIVITY:
+        for _ in range(4):  # (the l2 loss grows with scale^2 only approximately)
+            if sens >= 0.8 * NEAR_TARGET_SENSITIVITY:
+                break
+            scale = float(f"{scale * np.sqrt(NEAR_TARGET_SENSITIVITY / max(sens, 1e-30)):.2g}")
+            T, commons, sens = sensitivity(scale)
+    if not (sens >= NEAR_MIN_SENSITIVITY and len(set(T)) > 1 and len(set(np.float32(T).tolist())) == len(set(T)) and max(T) / min(T) - 1 <= item["rel"] * 1.02):
+        raise Broken(f"nearly-equal thickness member {item} (scale {scale:g} A, thicknesses {T}) is too insensitive: one common thickness gives an l2 loss of only "
+                     f"{sens:.3g} x the zero-tolerance (need {NEAR_MIN_SENSITIVITY:g} x)")
+    return T, commons, sens, scale
+
+
 def order_items(tier, start):
     items = []
 
@@ -1069,7 +1117,7 @@ def order_items(tier, start):
                         # quick: every (slices, spread, order) at construction on the first base; the three other routes for
                         # every spread with the odd-one-out in the middle on the second base.  thorough: the full product
                         if tier != "quick" or (b == 0 and route == "construction") or (b == 1 and route != "construction" and order == "odd_middle"):
-                            add(kind="nearly_equal_thicknesses", base=b, slices=S, rel=rel, scale=scale * NEAR_BASE_SCALE[b], order=order, route=route, container="list")
+                            add(kind="nearly_equal_thicknesses", base=b, slices=S, rel=rel, scale=scale, order=order, route=route, container="list")
         for name in PATTERN_ORDERS:
             for S in (1, 3):
                 add(kind="pattern_order", base=b, slices=S, order=name)
@@ -1088,7 +1136,7 @@ def run_order_case(item, seed=0):
     near = kind == "nearly_equal_thicknesses"
 
     def fail(what, msg):
-        cls = {"relation": "nearly_equal_thicknesses_are_used_as_given" if near else "ordered_configuration_is_used_in_order", "sequence": kind, "what": what}
+        cls = {"relation": "nearly_equal_thicknesses_are_used_as_given" if near else "ordered_configuration_is_used_in_order", "sequence": item["kind"], "what": what}
         k = json.dumps(cls, sort_keys=True)
         if k not in seen:
             seen.add(k)
@@ -1098,8 +1146,9 @@ def run_order_case(item, seed=0):
     S = item["slices"]
     default_T = [60.0 + 30.0 * s for s in range(S - 1)]
     T = list(THICKNESS_SEQUENCES[S][item["sequence"]]) if kind == "slice_thicknesses" else default_T
+    commons = {}
     if near:
-        T = near_equal_sequence(S, item["rel"], item["scale"], item["order"])
+        T, commons, rec["sensitivity"], rec["scale"] = near_equal_member(base, S, item, seed)
         kind = "slice_thicknesses"  # installed and judged exactly like any other thickness sequence, plus what `near` adds
     cfgT = dict(base, thicknesses=T)
     if kind == "probe_params_key_order":
@@ -1116,18 +1165,6 @@ def run_order_case(item, seed=0):
         gsim = PT.reorder_patterns(geo, perm)
     data = PT.simulate(obj, probe, gsim, c)  # the sequence in slice order, the patterns in the order they are fed in
     what = f"{item}"
-    commons = {}
-    if near:
-        # is this member worth anything?  one common thickness (the first / the last member) in every gap, judged like a prediction
-        nullL = {lt: PT.ref_loss(np.zeros_like(data), data, lt, J, float(data.sum() / J)) for lt in PT.LOSS_TYPES}
-        sens = []
-        for tag, tc in (("first", T[0]), ("last", T[-1])):
-            commons[tag] = PT.simulate(obj, probe, geo, PT.normalise(dict(base, thicknesses=[tc] * (S - 1))))
-            sens.append(max(PT.ref_loss(commons[tag], data, lt, J, float(data.sum() / J)) / nullL[lt] / TOL["zero"][lt] for lt in ("l2_amplitude", "l2_intensity")))
-        rec["sensitivity"] = min(sens)
-        if not (min(sens) >= NEAR_MIN_SENSITIVITY and len(set(T)) > 1 and len(set(np.float32(T).tolist())) == len(set(T)) and max(T) / min(T) - 1 <= item["rel"] * 1.02):
-            raise Broken(f"nearly-equal thickness member {item} (thicknesses {T}) is too insensitive: one common thickness gives an l2 loss of only "
-                         f"{min(sens):.3g} x the zero-tolerance (need {NEAR_MIN_SENSITIVITY:g} x)")
     stage = "build"
     try:
         if kind == "slice_thicknesses" and item["route"] != "construction":
@@ -1533,6 +1570,9 @@ def run(ctx):
                                                             "propagator_tolerance": {"per_rad_of_largest_phase": NEAR_PROP_TOL[0], "absolute": NEAR_PROP_TOL[1]},
                                                             "worst_over_tolerance": {k: v for k, v in om.maxima.items() if k.startswith("nearly_equal_") and k.endswith("over_tolerance")}}},
     )
+    ne = ctx.coverage["ordered_configuration"]["nearly_equal_thicknesses"]
+    ctx.say(f"nearly-equal thicknesses: {ne['cases']} cases, smallest sensitivity {ne['smallest_sensitivity'] or 0:.3g} x the l2 zero-tolerance, worst/tolerance "
+            + ", ".join(f"{k[len('nearly_equal_'):-len('_over_tolerance')]} {v:.3g}" for k, v in sorted(ne["worst_over_tolerance"].items())))
     if om.extra["order_cases_nearly_equal_thicknesses"] < len(NEAR_EQUAL_SPREADS) * (sum(len(v) for v in NEAR_EQUAL_ORDERS.values()) + len(THICKNESS_ROUTES) - 1):
         raise Broken("vacuous nearly-equal thickness exploration")
     if om.extra["thickness_cases_distinct_values_not_ascending"] < 20 or om.extra["order_cases_pattern_order"] < 10:
